@@ -13,9 +13,9 @@ var prefixWords = []string{"archived:", "b:", "branch:", "c:", "case:", "content
 	"repo:", "lang:", "sym:", "t:", "type:", "meta.", "meta.k:", "meta.license:", "metax:", "cas:", "or:", ":"}
 
 var values = []string{"yes", "no", "auto", "filematch", "filename", "file", "repo", "", "foo", "Foo", "main", "go", "python", "HEAD", "dev",
-	"a.*b", "[a-z]+", "(", ")", "[", "a|b", "(?i)x", "\\", "\"", "x:y", ":", "Apache-.*", "*", "+", "\\d", "\\S+", "(a)(b)", "a b", "é", "\xff", "\xc3"}
+	"a.*b", "[a-z]+", "[A-Z]+", "[xY]z", "(P|Q)r", "(", ")", "[", "a|b", "(?i)x", "\\", "\"", "x:y", ":", "Apache-.*", "*", "+", "\\d", "\\S+", "(a)(b)", "a b", "é", "\xff", "\xc3"}
 
-var words = []string{"foo", "bar", "Foo", "or", "and", "main", "x", "a.b", "fo*", "(foo)", "(foo|bar)", "\\(", "\\\\", "[a-c]", "^a$", "é", "日本"}
+var words = []string{"OR", "Or", "oR", "AND", "Not", "[A-Z]oo", "(X|Y)z", "ba[RZ]", "foo", "bar", "Foo", "or", "and", "main", "x", "a.b", "fo*", "(foo)", "(foo|bar)", "\\(", "\\\\", "[a-c]", "^a$", "é", "日本"}
 
 func fixedStrings() []string {
 	out := []string{"", " ", "-", "--", "- ", "(", ")", "()", "( )", "(())", "or", "or or", "a or", "or a", "a or or b", "-or", "(or)", "( or )", "\"", "\"\"", "\\", "a\\",
